@@ -258,8 +258,10 @@ def check_property(prop, tier, extra_checks=None, seed=0):
   ncpu = min(16, os.cpu_count() or 1)
   results = []
   extra = []
-  from concurrent.futures import ThreadPoolExecutor
-  with ThreadPoolExecutor(max(1, len(extra_checks or []))) as tp:
+  # extra checks patch module attributes (FP-mode shadows): they run in their own forked processes so that the patches can
+  # never leak into partition workers forked meanwhile
+  from concurrent.futures import ProcessPoolExecutor
+  with ProcessPoolExecutor(max(1, len(extra_checks or [])), mp_context=mp.get_context("fork")) as tp:
     futs = [tp.submit(_run_extra, fn, tier) for fn in (extra_checks or [])]
     if jobs:
       with mp.get_context("fork").Pool(ncpu, maxtasksperchild=8) as pool:
